@@ -19,6 +19,13 @@ class Other(AutoSerialize):
     pass
 
 
+class Outer:
+    """Namespace class: Outer.Inner has a dotted __qualname__."""
+
+    class Inner(Node):
+        pass
+
+
 class _Field:
     def __init__(self, name):
         self.name = name
@@ -44,4 +51,4 @@ class Hybrid(AutoSerialize, torch.nn.Module):
         return self.lin(x) + self._p1.sum()
 
 
-CLASSES = {"Hybrid": Hybrid, "Plain": Plain, "Node": Node, "Leaf": Leaf, "Other": Other, "AttrsLike": AttrsLike}
+CLASSES = {"Inner": Outer.Inner, "Hybrid": Hybrid, "Plain": Plain, "Node": Node, "Leaf": Leaf, "Other": Other, "AttrsLike": AttrsLike}
